@@ -1,4 +1,5 @@
 import OsuProofs.Peak
+import OsuProps.C07
 
 /-!
 # C04 — peak parameters locate the maximum of e(f) inside the requested band
@@ -74,5 +75,31 @@ example : peakIndex (2 : ℚ) (some 6) [1, 2, 3, 4, 5, 6] [some 9, some 1, none,
   decide +kernel
 -- zero energy inside the band: still an in-band index
 example : peakIndex (3 : ℚ) none [1, 2, 3, 4] [some 5, some 5, some 0, some 0] = some 2 := by decide +kernel
+
+open Osu.Disp in
+/-- the peak wavenumber: the dispersion solver applied to the radian peak frequency `w` and the
+spectrum's depth (`deep` for a missing depth).  If the solver leaves through its convergence test,
+the returned wavenumber satisfies the linear dispersion relation at the peak frequency to the
+solver's relative tolerance (1e-3 in the code) — whatever the depth. -/
+theorem peak_wavenumber_dispersion (g tol w : ℝ) (dep : Depth ℝ) (n : ℕ)
+    (h : (solve g tol n [(w, dep)]).2 = true) :
+    ∃ k, (solve g tol n [(w, dep)]).1 = [k] ∧ absv (omega g k dep - w) / w < tol := by
+  simp only [solve, List.map_cons, List.map_nil] at h ⊢
+  obtain ⟨st', h1, h2, h3⟩ := newton_exit_residual_depth g tol n [(w, dep, firstGuess g w dep)] h
+  match st', h1, h2, h3 with
+  | [q], h1, h2, h3 =>
+    refine ⟨q.2.2, by simpa using h1, ?_⟩
+    have hq := h3 q (by simp)
+    simp only [List.map_cons, List.map_nil, List.cons.injEq, and_true, Prod.mk.injEq] at h2
+    rw [h2.1, h2.2] at hq
+    exact hq
+  | [], _, h2, _ => simp at h2
+  | _ :: _ :: _, _, h2, _ => simp at h2
+
+/-- every spectrum of a batch gets its own peak: the batch model is a map -/
+theorem peak_batch_independent (fmin : ℝ) (fmax : Option ℝ) (fs : List ℝ) (batch : List (List (Option ℝ))) (i : ℕ)
+    (h : i < batch.length) :
+    (batch.map (peakIndex fmin fmax fs))[i]'(by simpa using h) = peakIndex fmin fmax fs batch[i] := by simp
+
 
 end Osu.Spec
